@@ -161,6 +161,26 @@ CLAIMS = {
         "sigma_clip reset is a C10 known finding.",
    technique="paired-region rule + mirror statements + dead-store lint + normal forms + typestate (AST)",
    design="4 C11"),
+ 'C01': dict(
+   text="Only the Python plumbing around the overlap kernels is decided, for all centres/sizes/rotations: normal forms of the minimal bounding "
+        "box (floor(x+0.5)/ceil(x+0.5)), of the recentred pixel edges, of the overlap slices and the no-overlap test, of the shape half-extents; "
+        "annulus = outer - inner with identical grid/method arguments (SIB); method translation table; cache invalidation of bbox/extents on "
+        "every parameter assignment (L4); x/y pairing (T-AXIS). These are necessary conditions of every clause of the property.",
+   note="NOT decided: that the Cython kernels compute the true overlap fractions (weights in [0,1], sum = area). The .pyx files cannot be "
+        "compiled in this sandbox (no Cython) and no sound static bound on their arithmetic is in reach; an edit to a .pyx changes no behaviour "
+        "here.",
+   technique="normal-form comparison + sibling-call agreement + descriptor typestate + axis tags (AST)",
+   design="4 C01"),
+ 'C13': dict(
+   text="Structural clauses only: every pixel-integrated model is flux/4 times one erf difference per axis over +-0.5 pixel with one width "
+        "per axis and the y factor the exact axis mirror of the x factor (PRF); rotation convention of GaussianPRF, ImagePSF index transform "
+        "((y, x) oversampling, (x, y) origin, fill test on both axes), GriddedPSFModel cell lookup (SPEC); evaluate and fit_deriv agree on "
+        "shared definitions (SIB); history clause: memo key completeness (L5), no mutable class attribute modified through instances "
+        "(CLASS-MUTABLE), L1 on the lazy model classes.",
+   note="NOT decided: normalisation constants, unit-flux integrals, non-negativity, circular == elliptical at equal widths, bilinear blend "
+        "values: a wrong constant is invisible to these rules.",
+   technique="pattern/normal-form rules + axis mirror + sibling definitions + memo/typestate rules (AST)",
+   design="4 C13"),
 }
 
 fix_commits = subprocess.run(['git', '-C', '/repo', 'log', '--format=%h %s', '8203d59..HEAD'],
